@@ -58,6 +58,8 @@ import PS.Proofs.Enum.HSCompleteCheck
 import PS.Proofs.Enum.HSStops
 import PS.Proofs.Enum.HSPrologueTotal
 import PS.Proofs.Enum.GInst
+import PS.Proofs.Enum.USoundRun
+import PS.Proofs.Enum.UBridge
 namespace PS.C02HS
 open PS PS.G
 
@@ -483,5 +485,88 @@ example : ∃ k g' out, take cEt 28 k (Gen.new cG) [] = some (g', out, true) ∧
 example : (take cEt 28 10 (Gen.new cG) []).map (fun r => (r.2.1.length, r.2.2)) = some (4, true) := by decide +kernel
 example : (take cEb 28 10 (Gen.new cG) []).map (fun r => (r.2.1.length, r.2.2)) = some (5, true) := by decide +kernel
 end Generic
+
+/-! ## unambiguous machine -/
+section UMachine
+open PS.UHS
+variable {U π : Type} [DecidableEq U]
+
+/-- SOUNDNESS of the heap search / bucket search on unambiguous grammars (`UHSEnumerator`,
+    u_heap_search.py, the code after fix 7721229: `Env.kway = true`) as a state invariant.
+    `UHS.SInv E s`: for every non-terminal `nt`
+    (1) every element `(priority, program)` of `heaps[nt]` is in `hash_table_program[nt]` and `priority`
+        is the priority of a derivation of `program` from `nt` (`UHS.HasPrio`: the rule priorities
+        combined from left to right; heap search: the product of the rule weights),
+    (2) every program of `hash_table_program[nt]`, every value of `succ[nt]`, `max_priority[nt]`,
+        `max_priority[(nt, P, v)]` is derivable from `nt`,
+    (3) `_keys[nt][program] = v` is an alternative of the head of `program` from whose non-terminals
+        the arguments are derivable,
+    (4) the memo table of `compute_priority` (`probabilities` / `bucket_tuples`) holds priorities of derivations,
+    (5) every element `(priority, program, start)` of the start heap has `start` a start symbol and
+        `priority = adjust_priority_for_start(priority of a derivation of program from start)`.
+    It holds for the fresh enumerator … -/
+theorem C02_HS_U_inv_init (E : UHS.Env U π) : UHS.SInv E (UHS.St.empty E.G) := sinv_empty E
+
+/-- … `query(S, program)` keeps it and returns a program derivable from `S` (any priority type,
+    threshold, filter, fuel; `UHS.GHyp`: dict keys distinct, the alternatives of one symbol have
+    one arity, the code after fix 7721229) … -/
+theorem C02_HS_U_query_sound (E : UHS.Env U π) (H : GHyp E) (n : Nat) (s s' : UHS.St U π) (nt : UHS.UNT U)
+    (p r : Option Prog) (hs : UHS.SInv E s) (h : UHS.query E n s nt p = some (s', r)) :
+    UHS.SInv E s' ∧ ∀ q, r = some q → Der E q nt :=
+  big_sound E H (big_of_query E h) hs trivial
+
+/-- … and so does every `next(generator)`, which yields a program derivable from a start symbol -/
+theorem C02_HS_U_sound_step (E : UHS.Env U π) (H : GHyp E) (fuel k : Nat) (s s' : UHS.St U π) (r : Option Prog)
+    (hs : UHS.SInv E s) (h : UHS.next E fuel k s = some (s', r)) :
+    UHS.SInv E s' ∧ ∀ p, r = some p → ∃ nt w, startW E nt = some w ∧ Der E p nt :=
+  hs.next H k h
+
+/-- the stored priority is the priority of a derivation of the program -/
+theorem C02_HS_U_stored_priority (E : UHS.Env U π) (s : UHS.St U π) (hs : UHS.SInv E s) (nt : UHS.UNT U)
+    (e : π × Prog) (he : e ∈ s.heapOf nt) : HasPrio E e.2 nt e.1 ∧ e.2 ∈ s.seenOf nt :=
+  ⟨hs.heap_prio nt e he, hs.heap_seen nt e he⟩
+
+/-- on the start heap: the priority adjusted by the weight of the start symbol -/
+theorem C02_HS_U_start_priority (E : UHS.Env U π) (s : UHS.St U π) (hs : UHS.SInv E s)
+    (e : π × Prog × UHS.UNT U) (he : e ∈ s.startHeap) :
+    ∃ w pr, startW E e.2.2 = some w ∧ HasPrio E e.2.1 e.2.2 pr ∧ e.1 = E.ops.adjust pr w :=
+  hs.start_ok e he
+
+/-- **SOUNDNESS**: whatever heap search / bucket search on an unambiguous grammar yields is a member
+    of the grammar — `U.genU`, the specification of PS/Model/Ucfg.lean (a derivation from a start
+    symbol exists), for the rule table stripped of its weights.  Every grammar (recursive or not,
+    ambiguous or not), priority type, threshold, filter, fuel, number of steps. -/
+theorem C02_HS_U_sound (E : UHS.Env U π) (H : GHyp E) (d : UHS.UNT U) (fuel k : Nat) (s' : UHS.St U π)
+    (out : List Prog) (b : Bool) (h : UHS.take E fuel k (UHS.St.empty E.G) [] = some (s', out, b)) :
+    ∀ p ∈ out, PS.U.genU (E.G.toUCFG d) p = true := by
+  intro p hp
+  rw [← derStart_iff_genU]
+  exact ((sinv_empty E).take H k (by intro q hq; cases hq) h).2 p hp
+
+/-! non-vacuity: three start symbols, two alternatives for `+` at `S2`:
+    `S0 → 1 | var0`, `S1 → + S0 S0`, `S2 → + S0 S1 | + S1 S0`; 2 + 4 + 16 = 22 programs -/
+def Gu : UG Nat :=
+  { starts := [(s2, 1/2), (s0, 1/4), (s1, 1/4)],
+    rules := [(s1, [(plus, [([s0, s0], 1)])]), (s0, [(one, [([], 1/4)]), (v0, [([], 3/4)])]),
+              (s2, [(plus, [([s0, s1], 3/5), ([s1, s0], 2/5)])])] }
+def Eu : UHS.Env Nat Rat := { G := Gu, ops := UHS.probOps 0, filter := fun _ => true, kway := true }
+def Eub : UHS.Env Nat UHS.Bucket := { G := Gu, ops := UHS.bucketOps 3 false, filter := fun _ => true, kway := true }
+
+theorem Eu_hyp : GHyp Eu := GHyp.of_checks Eu (by decide) (by decide) rfl
+theorem Eub_hyp : GHyp Eub := GHyp.of_checks Eub (by decide) (by decide) rfl
+
+/-- the machine yields the 22 programs and stops -/
+example : (UHS.take Eu 60 30 (UHS.St.empty Gu) []).map (fun r => (r.2.1.length, r.2.2)) = some (22, true) := by
+  decide +kernel
+example : (UHS.take Eub 60 30 (UHS.St.empty Gu) []).map (fun r => (r.2.1.length, r.2.2)) = some (22, true) := by
+  decide +kernel
+
+example : ∀ s' out b, UHS.take Eu 60 30 (UHS.St.empty Gu) [] = some (s', out, b) →
+    ∀ p ∈ out, PS.U.genU (Gu.toUCFG s0) p = true :=
+  fun s' out b h => C02_HS_U_sound Eu Eu_hyp s0 60 30 s' out b h
+example : ∀ s' out b, UHS.take Eub 60 30 (UHS.St.empty Gu) [] = some (s', out, b) →
+    ∀ p ∈ out, PS.U.genU (Gu.toUCFG s0) p = true :=
+  fun s' out b h => C02_HS_U_sound Eub Eub_hyp s0 60 30 s' out b h
+end UMachine
 
 end PS.C02HS
